@@ -506,3 +506,52 @@ Proof.
   rewrite be16_at_ok by lia. rewrite !sl_ok by lia. cbn [bind len arr].
   do 3 eexists. repeat split; try reflexivity.
 Qed.
+
+(* ---------------------------------------------------------------- *)
+(* "the probing MAC holds a different outstanding DHCP offer": the offer is what the SESSION's MAC table says
+   (session.DHCPv4IPOffer reads MACEntry.IP4Offer), as modelled by TABLES (Model/Tables.v, read-only).  The C13
+   state's offer list is the view of a TABLES state; MAC keys are unique in every reachable TABLES state
+   (Proofs/Tables.v: the consistency invariant of C05), which is the only hypothesis. *)
+From PV Require Model.Tables.
+
+Definition tables_offer (t : Model.Tables.state) (m : mac) : option ip4 :=
+  match Model.Tables.find_mac m (Model.Tables.macs t) with
+  | Some e => match Model.Tables.m_offer e with Model.Tables.IP4 a => Some a | _ => None end
+  | None => None
+  end.
+
+Definition offer_entry (e : Model.Tables.macent) : list (mac * ip4) :=
+  match Model.Tables.m_offer e with Model.Tables.IP4 a => [(Model.Tables.m_mac e, a)] | _ => [] end.
+Definition offers_view (t : Model.Tables.state) : list (mac * ip4) := flat_map offer_entry (Model.Tables.macs t).
+
+Lemma offer_of_absent m l : ~ In m (map Model.Tables.m_mac l) -> offer_of m (flat_map offer_entry l) = None.
+Proof.
+  induction l as [|e r IH]; intros H; simpl; auto.
+  simpl in H. unfold offer_entry at 1. destruct (Model.Tables.m_offer e); simpl; try (apply IH; tauto).
+  destruct (Model.Tables.m_mac e =? m) eqn:E; [exfalso; apply H; left; lia|]. apply IH. tauto.
+Qed.
+
+Theorem offers_view_lookup : forall t m,
+  NoDup (map Model.Tables.m_mac (Model.Tables.macs t)) -> offer_of m (offers_view t) = tables_offer t m.
+Proof.
+  intros t m. unfold offers_view, tables_offer. induction (Model.Tables.macs t) as [|e r IH]; intros H; simpl; auto.
+  inversion H; subst. destruct (Model.Tables.m_mac e =? m) eqn:E.
+  - assert (Model.Tables.m_mac e = m) by lia. subst m.
+    unfold offer_entry at 1. destruct (Model.Tables.m_offer e); simpl; try (apply offer_of_absent; auto).
+    rewrite N.eqb_refl. reflexivity.
+  - unfold offer_entry at 1. destruct (Model.Tables.m_offer e); simpl; try (apply IH; auto).
+    rewrite E. apply IH. auto.
+Qed.
+
+(* hence the probe-reject decision of C13_probe_reject_iff reads the session's table: for a C13 state whose offers
+   are the view of a TABLES state, the offer in sp_reject_cond is MACEntry.IP4Offer of the probing MAC *)
+Theorem probe_reject_reads_tables : forall c s t p,
+  NoDup (map Model.Tables.m_mac (Model.Tables.macs t)) -> offers s = offers_view t ->
+  rx_answer c s p =
+  if closed s then RxNone
+  else if sp_is_probe p
+  then (if sp_reject_cond c (tables_offer t (psmac p)) p then RxQueue (probe_reject c p) else RxNone)
+  else (if sp_asks_router c p && hunted s (psmac p) then RxQueue (spoof_reply c p) else RxNone).
+Proof.
+  intros c s t p Hn Ho. unfold rx_answer. rewrite Ho, (offers_view_lookup t (psmac p) Hn). reflexivity.
+Qed.
